@@ -92,11 +92,16 @@ LossLess(input, rn, rd, sIn, sOut, PK) ==
   IF outputDec = outputInt
   THEN [burn |-> input, mint |-> mint, giveback |-> FALSE, exact |-> ex12]
   ELSE
-    LET outputFrac == outputDec - outputInt
-        inputFrac == MulQ(outputFrac, smD, smN)    \* outputFrac.Mul(scaleReverseMultipler)
-        burn == QuoT(inputDec - inputFrac, PK)     \* inputDec.Sub(inputFrac).TruncateInt()
-    IN [burn |-> burn, mint |-> mint, giveback |-> TRUE,
-        exact |-> ex12 /\ ExactQ(outputFrac, smD, smN)]
+    \* fix (F6): need := outputInt.QuoRoundUp(ratio).QuoRoundUp(scaleMultipler);
+    \* input = need.Ceil().TruncateInt().  Every step rounds up on a grid that
+    \* refines the integers, and nested ceilings over integer divisors collapse
+    \* (ceil(ceil(x*10^18)/10^18 ... ) = ceil(x)), so the result is the exact
+    \* rational ceiling  ceil(mint * rd * smD / (rn * smN))  — no precision
+    \* parameter is involved in this branch.
+    LET num == mint * rd * smD
+        den == rn * smN
+        burn == (num + den - 1) \div den
+    IN [burn |-> burn, mint |-> mint, giveback |-> TRUE, exact |-> ex12]
 
 (* smallest kr with rd | 10^kr, or 99 *)
 DecDigits(rd) ==
